@@ -48,6 +48,13 @@ class ImplS(Impl):
         real = template_scheduler() if algo == "template" else algo
         self.sched = Scheduler(self.ex, scheduler_algo=real, multi_operator_containers=c["multi"],
                                allow_memory_overcommit=c["over"], duration=10 ** 6, ticks_per_second=c["tps"])
+        # a second scheduler of the same kind with the opposite container mode, on the decoy executor, created afterwards and kept alive: how it is
+        # configured is its own business (no module-level or class-level setting may leak from one scheduler to another)
+        try:
+            self.decoy_sched = Scheduler(self.decoy, scheduler_algo=real, multi_operator_containers=not c["multi"],
+                                         allow_memory_overcommit=not c["over"], duration=10 ** 6, ticks_per_second=c["tps"])
+        except AssertionError:
+            self.decoy_sched = None        # priority-pool insists on two pools
         self.results = []
         self.pipe_index = {id(pl): i for i, (pl, _) in enumerate(self.pipes)}
 
@@ -60,6 +67,14 @@ class ImplS(Impl):
         return out
 
     def sched_state(self):
+        """the scheduler's own bookkeeping, read from its attributes.  It is an observation, not an interface: if an attribute is missing or holds something
+        of another shape than in the unchanged code, that is reported as a difference (the model's state will not match), never as a harness error"""
+        try:
+            return self._sched_state()
+        except Exception as e:
+            return {"unreadable": f"{type(e).__name__}: {str(e)[:80]}"}
+
+    def _sched_state(self):
         s = self.sched
         if self.algo in ("naive", "template"):
             return {"queue": [self.pipe_index[id(p)] for p in s.waiting_queue]}
